@@ -99,6 +99,24 @@ Seeded changes missed by the first version and now caught with concrete replays 
           differently from ml_dtypes — saturation / float32 detour — measured on the clean tree, so it is not used there).
 Unchanged tree: no VIOLATION for VERIF_SEED 0..3 (only KNOWN-FINDING string-trailing-nul).
 
+Deepening round (2026-09-26):
+  * _type_casting.py is now TRANSLATED: `_TC` (fail-closed ast translator in this file) emits tc_pack_4bitx2 /
+    tc_unpack_4bitx2 / tc_pack_2bitx4 / tc_unpack_2bitx4 into Gen/C04Gen.v statement by statement over the strided
+    numpy vocabulary of C04/Np.v (`a[s::k]`, `a[s::k] op= c`, `a[s::k] = v`, `&`, `>>`, `|`, resize, np.empty, `[:-1]`,
+    `[:n]`; dims = its element count).  Model.pack_4bitx2 etc. ARE these translations; ProofsTc.v proves them equal, for
+    every input and target size, to the readable pair/quad recursions (theorem C04_type_casting_translated), so
+    C04_pack_unpack and every representation theorem is about the code as written.  New direct stream
+    type_casting_stream (valid, odd, empty, scalar dims, mismatching dims, int8/2-D/Fortran/strided inputs).
+  * byte order: generation fails closed unless from_numpy starts with the plain table lookup and the byte builder ends
+    with the big-endian-machine swap only (why the model has no byte-order dimension); non-native arrays stay in the tie.
+  * nbytes: the model now computes what the code computes (`nbytes_code`: float64 product, int->float rounding rne53);
+    C04_nbytes_float_exact (exact below 2^53 elements; `logical` carries that bound) and C04_nbytes_float_refuted
+    (INT4 x (2^53+1)) = known finding nbytes-float-rounding + proposed_fixes/C04-nbytes-float-rounding.diff; stream
+    nbytes_stream compares LazyTensor(shape).nbytes with the model for sizes up to ~2^90 (never materialised).
+  * strings: the repair (object arrays) passes the 1066 tests of _core/serde/_constructors/tensor_adapters/_enums/schemas
+    test files in a scratch worktree; C04_strings_agree_with_fix proves the full statement for the repaired model
+    (s_numpy_fixed).  When the fix lands: set the finding to "fixed" and make s_numpy := s_numpy_fixed.
+
 Shared-helper notes for the orchestrator: case files are compiled with at most 4 coqc in parallel (own pool instead of
 ck.coq_eval_many, which uses every core); C04/Tie.v is not in the closure of Property.v, run() builds it with common.make.
 """
